@@ -11655,15 +11655,25 @@ func (p *parser) minifySwitchStmt(loc logger.Loc, s *js_ast.SSwitch, stmts []js_
 		// To simplify analysis, only continue when all cases are primitives
 		if allCasesArePrimitives {
 			takenIndex := -1
+			canTellWhichCaseIsTaken := true
 
 			// Find the case that compares equal and will be taken
 			for i, c := range s.Cases {
-				if isEqualToTest, ok := js_ast.CheckEqualityIfNoSideEffects(s.Test.Data, c.ValueOrNil.Data, js_ast.StrictEquality); ok && isEqualToTest {
+				if c.ValueOrNil.Data == nil {
+					continue
+				}
+				isEqualToTest, ok := js_ast.CheckEqualityIfNoSideEffects(s.Test.Data, c.ValueOrNil.Data, js_ast.StrictEquality)
+				if !ok {
+					// This case could be the one that's taken, so we can't tell
+					canTellWhichCaseIsTaken = false
+					break
+				}
+				if isEqualToTest {
 					takenIndex = i
 					break
 				}
 			}
-			if takenIndex == -1 {
+			if takenIndex == -1 && canTellWhichCaseIsTaken {
 				takenIndex = defaultIndex
 			}
 
